@@ -67,3 +67,18 @@ func VH_C20_json_coins(lim int) {
 	zzvrt.Assert("grams-unmarshal-ok", z.UnmarshalJSON(b) == nil)
 	zzvrt.Assert("grams-roundtrip", z == gr)
 }
+
+// Magic (constructor tag) JSON form "0x<hex>": every 32-bit value, incl. 0 and values with leading
+// zero nibbles, prints to text that parses back to the same value.
+func VH_C20_json_magic() {
+	v := Magic(zzvrt.NondetU32("v"))
+	b, err := v.MarshalJSON()
+	zzvrt.Assert("marshal-ok", err == nil && len(b) >= 5)
+	var y Magic
+	err = y.UnmarshalJSON(b)
+	zzvrt.Assert("unmarshal-ok", err == nil)
+	zzvrt.Assert("roundtrip", y == v)
+	zzvrt.Cover("zero", v == 0)
+	zzvrt.Cover("eight-digits", v >= 0x10000000)
+	zzvrt.ObserveU64("y", uint64(y))
+}
